@@ -493,6 +493,12 @@ def check_c03(tier, seed):
     for dn, hs in random_batches(seed + 12, tier, 16, 200, 30, dicts=("G", "E", "C")).items():
         run_batch(out, f"order{dn}", dn, hs)
     run_batch(out, "edges", "A", edges_namespace(out, tier), extra_specs=("Trace_Phys",), keep=fid.lines)
+    # images produced through the path-based constructors: a real file, created by cfb::create(path) where an older, longer
+    # file lies (what is left of it must not be part of the image: R1, file length = whole sectors of THIS file), and plain files
+    hs = []
+    for i, h in enumerate(random_batches(seed + 21, tier, 8, 60, 25, dicts=("A",), reopen_p=0.08)["A"]):
+        hs.append(dict(h, ver=4 if i % 2 == 0 else 3, backend={"kind": "path" if i % 2 == 0 else "file", "chunks": []}))
+    run_batch(out, "files", "A", hs)
     return finish(out, "model_checking",
                   "WF(img) (rules R1..R8 of spec/CfbImage.tla) evaluated by TLC on the independent raw decode of the image after every heavy event; "
                   "design level: the same rules are invariants of MC_Phys (CfbPhys = transcription of the allocator / mini allocator / directory / stream write paths, "
